@@ -74,7 +74,8 @@ TEXT = {
              'XGuard new_ver bookkeeping by correspondence + XB/XE monitor.',
         note=TRUST),
     'C10': dict(technique=WL,
-        text='c10_no_other_sixx_*: during a SIX/X tenure no other SIX/X grant; c10_no_gap: conversions keep the grant; c10_upgrade_alone_*: upgrade granted only without S holders; c10_mcs from the MCS protocol invariant.',
+        text='Guard level: c10_client_no_other_sixx_pess/_opt - in every reachable state of the client model no two guards of class SIX / X own grants on one lock (from c01_client_guards_compatible_*). '
+             'c10_no_other_sixx_*: during a SIX/X tenure no other SIX/X grant; c10_no_gap: conversions keep the grant; c10_upgrade_alone_*: upgrade granted only without S holders; c10_mcs from the MCS protocol invariant.',
         note=TRUST),
     'C11': dict(technique='Lean 4 protocol invariant of the step-faithful MCS model => no overtaking in queue order; bit-level lemmas at regenerated constants (bv_decide); tie C: correspondence; FIFO monitor on every implementation trace',
         text='c11_no_overtake: in every reachable state of the step-faithful MCS model no request holds a grant while a conflicting request ahead of it in the queue is unfinished; '
